@@ -647,6 +647,14 @@ example : order [TCh.modifyFK 1, TCh.addTable 1] = [TCh.modifyFK 1, TCh.addTable
 example : order [TCh.addTable 1, TCh.addTable 2, TCh.addTable 0] = [TCh.addTable 1, TCh.addTable 2, TCh.addTable 0] :=
   tidb_keeps_presort_order _ 4 (by simp [priority])
 
+/-- **tidb_order_idempotent**: ordering an ordered change list changes nothing (change lists of any length). -/
+theorem tidb_order_idempotent (l : List TCh) : order (order l) = order l := by
+  unfold order
+  apply List.mergeSort_of_pairwise
+  have := (tidb_order_stable l 0).2.1
+  unfold order at this
+  exact this.imp (fun h => by simpa [le] using h)
+
 end Tidb
 
 end Props.C04
